@@ -739,14 +739,13 @@ def run(prog, rep, tier):
     # the three-byte minus sign), the zone is cut: `+05:45` matches an hour-only sibling as `+05`, `PETT`
     # as `PET`, or the zone-less sibling wins (instants 15 min to 17 h off).  For every start-anchored row
     # with a zone group and a finite longest match: range end >= longest match.
-    R418 = rep.rule("R4.18", "a start-anchored row with a zone group searches at least as far as its own longest match")
+    R418 = rep.rule("R4.18", "a start-anchored row searches at least as far as its own longest match")
     n418 = 0
     short418 = []
     for i_, r_ in enumerate(rows):
         if not res[i_].get("anchored_start") or res[i_].get("max_len") is None:
             continue
-        if not any(g_["name"] == "tz" for g_ in res[i_].get("groups", [])):
-            continue
+        # (rows without a zone group too: what is cut there is the year or the time, and a year-less sibling takes the line)
         n418 += 1
         e_ = r_["fields"]["range_regex"]["fields"]["end"]
         if res[i_]["max_len"] > e_:
